@@ -40,7 +40,7 @@ def strategy(tier):
         'opts': G.opts_strategy(with_pruning=True),
         'size': G.size_strategy(),
         'seed': st.sampled_from([None, None, 0, 1, 2, 3]),
-        'form': st.sampled_from(['list', 'list', 'dict']),
+        'form': st.sampled_from(['list', 'list', 'dict', 'bytes']),
         'avoid_known': st.sampled_from([True] * 6 + [False]),
         'zero_keys': G.zero_keys_strategy(),
     }).map(c03.steer)
@@ -52,7 +52,8 @@ def valid(case):
     c = dict(case)
     if not c['examples']:
         c['examples'] = ['x']
-    return c03.valid(c) and case.get('form', 'list') in ('list', 'dict')
+    return c03.valid(c) and case.get('form', 'list') in ('list', 'dict',
+                                                         'bytes')
 
 
 def ends_with_unescaped_dollar(r):
@@ -68,6 +69,18 @@ def ends_with_unescaped_dollar(r):
 
 def extract_with(case, tag, rng_seed):
     random.seed(rng_seed)
+    if case.get('form') == 'bytes':
+        # the examples as UTF-8 byte strings with an encoding (nulls left
+        # out: with an encoding every entry is decoded)
+        from tdda.rexpy import rexpy
+        try:
+            bs = [x.encode('utf-8') for x in case['examples']
+                  if x is not None]
+        except UnicodeEncodeError:
+            return call(G.run_extract, case, tag=tag, form='list')
+        kw = G.extract_kwargs(case)
+        kw['tag'] = tag
+        return call(rexpy.extract, bs, encoding='utf-8', **kw)
     return call(G.run_extract, case, tag=tag)
 
 
